@@ -58,7 +58,10 @@ def case_rescale(case):
     for f in fs[lo_i:hi_i]:
         for g in gs:
             lab = "f=%s g=%s" % (list(f), list(g))
-            for fdt, gdt in ((float, float), (float, np.int64), (np.int64, np.int32)) if len(v) < 6 else ():
+            # base fields as class labels (unsigned), single precision, and - where g only takes the values 0 and 1 - as a
+            # boolean region mask
+            dts = ((float, float), (float, np.int64), (np.int64, np.int32), (float, np.uint8), (float, np.float32)) + (((float, np.bool_),) if set(g) <= {0, 1} else ())
+            for fdt, gdt in dts if len(v) < 6 else ():
                 fscale = 1 if fdt is float else 4  # integer-typed f: the same field in units of 1/4
                 fa = np.array([x * fscale for x in f], dtype=fdt).reshape(shape)
                 ga = np.array(g, dtype=gdt).reshape(shape)
@@ -181,6 +184,19 @@ def case_percentile(case):
             n += 1
             if (l3, a3) != (l0, a0):
                 v.append({"sub": "percentile-3d", "sig": "percentile-3d", "msg": "f=%s as level 1 of a 3-D field: (%r, %r) vs 2-D (%r, %r)" % (list(f), l3, a3, l0, a0)})
+            # the same 3-D field with horizontal coordinates that have no level axis; the third grid entry (which the
+            # function does not use) in the forms callers hold it in: the heights of the levels, one height, nothing
+            zl = np.array([0.5, 2.0, 7.5])
+            for gname, g3 in (("2-D X,Y + 1-D level heights", (X2, Y2, zl)), ("2-D X,Y + list of heights", (X2, Y2, [0.5, 2.0, 7.5])), ("2-D X,Y + tuple of heights", (X2, Y2, (0.5, 2.0, 7.5))),
+                              ("2-D X,Y + one height", (X2, Y2, 2.0)), ("2-D X,Y + None", (X2, Y2, None)), ("1-D x,y + 1-D level heights", (x, y, zl)), ("2-D X,Y + 0-d array", (X2, Y2, np.array(2.0)))):
+                try:
+                    l4, a4 = extract_percentile_contour(f3, g3, pct=pf, level=1)
+                except Exception as e:  # noqa
+                    l4, a4 = "raised %s" % type(e).__name__, None
+                n += 1
+                if (l4, a4) != (l0, a0):
+                    v.append({"sub": "percentile-3d", "sig": "percentile-3d/grid-forms", "msg": "f=%s as level 1 of a 3-D field with grid = %s: (%r, %r) vs 2-D (%r, %r)" % (list(f), gname, l4, a4, l0, a0)})
+                    break
     return {"v": v[:6], "nt": n, "key": core.canon(case), "n": n}
 
 
